@@ -205,8 +205,8 @@ pub fn run(cfg: &Config) -> i32 {
     require_binaries(cfg);
     let tmp = scratch_dir(cfg, "c09");
     let budget = Duration::from_secs_f64(cfg.pick(40.0, 400.0) * cfg.scale);
-    let mut stats = parallel(cfg, "external", cfg.scaled(cfg.pick(2500, 400_000)), budget, |idx, r, st| external_case(cfg, &tmp, idx, r, st));
-    let s2 = parallel(cfg, "strong", cfg.scaled(cfg.pick(1500, 400_000)), budget / 2, |idx, r, st| strong_case(idx, r, st));
+    let mut stats = parallel(cfg, "external", cfg.scaled(cfg.pick(20_000, 400_000)), budget, |idx, r, st| external_case(cfg, &tmp, idx, r, st));
+    let s2 = parallel(cfg, "strong", cfg.scaled(cfg.pick(12_000, 400_000)), budget / 2, |idx, r, st| strong_case(idx, r, st));
     stats.merge(s2);
     let _ = std::fs::remove_dir_all(&tmp);
     let mut known_replayed = Vec::new();
@@ -222,7 +222,7 @@ pub fn run(cfg: &Config) -> i32 {
             level: "exploration",
             rule: "generated accepted external-equivalence tasks (hostile identifier pool: leading underscores, _i/_g/_s and __s suffixes, names of preamble symbols, symbols named like predicates or mangled placeholders, one predicate name at two arities) and strong-equivalence tasks, random flag combinations; every problem text is read by the strict TFF reader/type checker; a non-trivial case is a distinct problem text accepted by the reader".into(),
             assumptions: vec!["the strict reader implements the TFF fragment of DESIGN.md Appendix C; cross-checked against the repository's tptp4X on the example problems (kit self-test)".into()],
-            floor: cfg.pick(3_000, 20_000),
+            floor: cfg.pick(30_000, 100_000),
             floor_counter: "problems_accepted_by_strict_reader".into(),
             known_replayed,
             extra: J::obj(),
